@@ -178,6 +178,12 @@ package policy
 //@   ensures [C10] bounds: result1 == nil ==> intsInBounds(node)
 //@   ensures [C14,C09] shape: result1 == nil ==> nodeKind(node) == datamodel.Kind_List && len(result0) == listLen(node) && (forall j int :: 0 <= j && j < len(result0) ==> result0[j] != nil && stmtKind(result0[j]) == nodeStr(listElem(listElem(node, j), 0)))
 //@   ensures [C14] faithful: result1 == nil ==> (forall j int :: {result0[j]} 0 <= j && j < len(result0) ==> reprs(result0[j], listElem(node, j)))
+//@ // a policy given as DAG-JSON text is the policy read from the standard DAG-JSON decoding of that text (dagjson.Decode:
+//@ // links and bytes literals parsed), accepted exactly when that decoding and the policy decoder both accept
+//@ func FromDagJson
+//@   ensures [C09] total: true
+//@   ensures [C14] decoded: (result1 == nil) == (decodeErr(dagjson.Decode, json) == nil && polDecErr(decodeWith(dagjson.Decode, json)) == nil)
+//@   ensures [C14] faithful: result1 == nil ==> len(result0) == listLen(decodeWith(dagjson.Decode, json)) && (forall j int :: {result0[j]} 0 <= j && j < len(result0) ==> reprs(result0[j], listElem(decodeWith(dagjson.Decode, json), j)))
 //@ // reprs(s, n): statement s is a faithful reading of the policy node n - exactly the tuple length its operator takes, the
 //@ // operator itself, the literal / pattern taken over unchanged, nested statements faithful readings of the nested nodes,
 //@ // one per element (nothing dropped, nothing added).  It is defined by structural recursion on s (reprsDef); a decoder
